@@ -442,12 +442,15 @@ def corrupt_selftest(run, spec, trace_path, kfs=None):
     lines = lines[:cut]
     done = 0
     tried = []
-    for mut in ("drop_output", "dup_output", "flip_result", "occupancy", "value"):
+    for mut in ("drop_output", "drop_event", "dup_output", "flip_result", "occupancy", "value"):
         recs = [json.loads(l) for l in lines]
         ok = False
         for r in recs:
             if mut == "drop_output" and r.get("effs"):
                 r["effs"] = r["effs"][1:]
+                ok = True
+            elif mut == "drop_event" and r.get("evs"):
+                r["evs"] = r["evs"][1:]
                 ok = True
             elif mut == "dup_output" and (r.get("evs") or r.get("log")):
                 k = "evs" if r.get("evs") else "log"
